@@ -107,9 +107,10 @@ Proof. reflexivity. Qed.
    Missing (checked on every run by the harness oracle and by prop_case, not proved):
    (1) names containing a reserved rune, which are printed with strconv.Quote on both sides (needs
        Unquote (Quote s) = s for valid UTF-8 s, given is_print LF = false);
-   (2) fallback and classic mode: that the classic parser, on a printed text, either rejects it or returns the same
-       matchers (c16_fallback_roundtrip_partial reduces the fallback clause to exactly that), and accepts it when
-       the name is a classic label name. *)
+   (2) fallback and classic mode for lists and for non-classic names: that the classic parser, on a printed text,
+       either rejects it or returns the same matchers (c16_fallback_roundtrip_partial reduces the fallback clause to
+       exactly that). For a single matcher with a classic name all three modes are proved below
+       (c16_classic_roundtrip_partial, c16_all_modes_roundtrip_partial). *)
 Theorem c16_roundtrip_partial is_space is_print compiles m :
   plain is_space compiles m ->
   utf8_matchers is_space compiles (print_b is_space is_print m) = Ok [m].
@@ -128,6 +129,22 @@ Proof.
   intros Hp Hc. simpl. rewrite (roundtrip_list is_space is_print compiles ms Hp).
   exact (fallback_roundtrip_cond _ ms (classic_matchers_no_panic is_space compiles _) Hc).
 Qed.
+
+(* PARTIAL (single matcher only). When moreover the name is a classic label name (a letter, underscore or colon, then letters, digits, underscores, colons), the
+   classic parser (the regexp recogniser + its unescape loop) returns the identical matcher from the printed text,
+   and so do compat.Matcher in classic, UTF-8-strict and fallback mode. Missing: the list form {m1,...,mn} through
+   the classic quote-aware comma split. *)
+Theorem c16_classic_roundtrip_partial is_space is_print compiles m :
+  plain is_space compiles m -> cname (b_name m) = true ->
+  classic_matcher compiles (print_b is_space is_print m) = Ok m.
+Proof. exact (classic_roundtrip_single is_space is_print compiles m). Qed.
+
+Theorem c16_all_modes_roundtrip_partial is_space is_print compiles m :
+  plain is_space compiles m -> cname (b_name m) = true ->
+  compat_matcher is_space compiles Fallback (print_b is_space is_print m) = Ok m /\
+  compat_matcher is_space compiles Classic (print_b is_space is_print m) = Ok m /\
+  compat_matcher is_space compiles Utf8Strict (print_b is_space is_print m) = Ok m.
+Proof. exact (fallback_roundtrip_single_classic is_space is_print compiles m). Qed.
 
 (* the sub-class, spelled out *)
 Theorem c16_plain_meaning is_space compiles m :
@@ -184,4 +201,6 @@ Print Assumptions c16_fallback_spec.
 Print Assumptions c16_roundtrip_partial.
 Print Assumptions c16_roundtrip_list_partial.
 Print Assumptions c16_fallback_roundtrip_partial.
+Print Assumptions c16_classic_roundtrip_partial.
+Print Assumptions c16_all_modes_roundtrip_partial.
 Print Assumptions c16_matcherset_spec.
